@@ -20,4 +20,54 @@ def totalDos (nq nb : Nat) (W : Fin nq → Fin nb → α) : α :=
 def projectedDos (nq nb na : Nat) (W : Fin nq → Fin nb → α) (c : Fin nq → Fin na → Fin nb → α) (a : Fin na) : α :=
   sumFin nq fun q => sumFin nb fun b => W q b * c q a b
 
+/-! ### smearing functions (`phonon/dos.py: NormalDistribution.calc`, `CauchyDistribution.calc`)
+
+`exp`, `sqrt(2π)` and `π` are parameters (non-algebraic): the theorems instantiate them with Mathlib's real
+functions, the driver with `Float`. -/
+
+/-- `1.0 / np.sqrt(2 * np.pi) / sigma * np.exp(-(x**2) / 2.0 / sigma**2)` -/
+def normalDist {β : Type} [Mul β] [Div β] [Neg β] [OfNat β 1] [OfNat β 2] (exp : β → β) (sqrtTwoPi : β) (σ x : β) : β :=
+  1 / sqrtTwoPi / σ * exp (-(x * x) / 2 / (σ * σ))
+
+/-- `gamma / np.pi / (x**2 + gamma**2)` -/
+def cauchyDist {β : Type} [Add β] [Mul β] [Div β] (pi : β) (γ x : β) : β :=
+  γ / pi / (x * x + γ * γ)
+
+/-- `TotalDos._get_density_of_states_at_freq`: `Σ_q w_q Σ_band δ(ν_{q,band} - ω) / Σ_q w_q` -/
+def smearingDos {β : Type} [Add β] [Sub β] [Mul β] [Div β] [OfNat β 0] (nq nb : Nat) (w : Fin nq → β)
+    (ν : Fin nq → Fin nb → β) (δ : β → β) (ω : β) : β :=
+  (sumFin nq fun q => w q * sumFin nb fun b => δ (ν q b - ω)) / sumFin nq w
+
+/-! ### frequency points (`Dos.set_draw_area`) -/
+
+/-- `np.arange(start, stop, step)` on rationals: `ceil((stop - start) / step)` points `start + i·step` -/
+def arange (start stop step : Rat) : List Rat :=
+  let n := ((stop - start) / step).ceil.toNat
+  (List.range n).map fun (i : Nat) => start + ((i : Nat) : Rat) * step
+
+/-- `Dos.__init__` + `set_draw_area`: `lo`, `hi` are the extreme frequencies of the mesh; `sigma = None` ↦
+`(hi - lo)/100`; missing `freq_min`/`freq_max` ↦ ten sigmas beyond the spectrum; missing pitch ↦ 200 intervals;
+points `arange(f_min, f_max + 0.1·pitch, pitch)`. Returns the sigma in use and the points. -/
+def frequencyPoints (lo hi : Rat) (sigma freqMin freqMax pitch : Option Rat) : Rat × List Rat :=
+  let σ := sigma.getD ((hi - lo) / 100)
+  let fmin := freqMin.getD (lo - σ * 10)
+  let fmax := freqMax.getD (hi + σ * 10)
+  let δ := pitch.getD ((fmax - fmin) / 200)
+  (σ, arange fmin (fmax + δ * (1 / 10)) δ)
+
+/-! ### projection coefficients (`ProjectedDos.__init__`): eigenvector components as (re, im) pairs -/
+
+def abs2 {β : Type} [Add β] [Mul β] (z : β × β) : β := z.1 * z.1 + z.2 * z.2
+
+/-- `xyz_projection=True`: `|e_i|²` for each of the 3N Cartesian components -/
+def coefXyz {β : Type} [Add β] [Mul β] {n : Nat} (e : Fin n → Fin 3 → β × β) (a : Fin n) (x : Fin 3) : β := abs2 (e a x)
+
+/-- default: `|e_{a,x}|² + |e_{a,y}|² + |e_{a,z}|²` -/
+def coefAtom {β : Type} [Add β] [Mul β] {n : Nat} (e : Fin n → Fin 3 → β × β) (a : Fin n) : β :=
+  abs2 (e a 0) + abs2 (e a 1) + abs2 (e a 2)
+
+/-- `direction` given (already normalised `d`): `|e_{a,x} d_x + e_{a,y} d_y + e_{a,z} d_z|²` -/
+def coefDir {β : Type} [Add β] [Mul β] {n : Nat} (e : Fin n → Fin 3 → β × β) (d : Fin 3 → β) (a : Fin n) : β :=
+  abs2 ((e a 0).1 * d 0 + (e a 1).1 * d 1 + (e a 2).1 * d 2, (e a 0).2 * d 0 + (e a 1).2 * d 1 + (e a 2).2 * d 2)
+
 end PhononModel.Dos
